@@ -92,6 +92,16 @@ func c03Configs(c *cell) []runCfg {
 		return cfgs
 	}
 
+	if c.fam == "retyped" {
+		// optimizer 0 and 2 (2 fuses x += k into the Increment opcode for name-addressed variables), cache on and off
+		cfgs := []runCfg{{0, true}, {0, false}, {2, true}, {2, false}}
+		if thorough {
+			cfgs = append(cfgs, runCfg{1, true}, runCfg{1, false}, runCfg{3, true})
+		}
+
+		return cfgs
+	}
+
 	if thorough {
 		return []runCfg{{0, false}, {1, false}, {2, false}, {3, false}}
 	}
@@ -105,12 +115,12 @@ func c03Configs(c *cell) []runCfg {
 
 // isBase: the configuration against which "fails only under configuration X" is judged.
 func isBase(c *cell, rc runCfg) bool {
-	return rc.Opt == 0 && rc.GC == (c.fam == "named")
+	return rc.Opt == 0 && rc.GC == (c.fam == "named" || c.fam == "retyped")
 }
 
 func cfgTag(c *cell, rc runCfg) string {
 	t := fmt.Sprintf("o%d", rc.Opt)
-	if c.fam == "named" && !rc.GC && rc.Opt < 3 {
+	if (c.fam == "named" || c.fam == "retyped") && !rc.GC && rc.Opt < 3 {
 		t += "-nocache"
 	}
 
@@ -386,7 +396,7 @@ func TestC03(t *testing.T) {
 				// the cell itself, the same cell in the other type modes (the key says whether all three fail) and,
 				// for an agreement finding, the other statement forms of its group
 				if c == target || c.id == stem+"/"+c.mode || (target.agree != "" && c.agree == target.agree) {
-					base := runCfg{0, c.fam == "named"}
+					base := runCfg{0, c.fam == "named" || c.fam == "retyped"}
 					recs = append(recs, recOf(c, base, runSolo(c, base, &st)))
 
 					if rc := (runCfg{replay.Opt, replay.GC}); rc != base {
@@ -448,6 +458,11 @@ func TestC03(t *testing.T) {
 		r.Eval(fmt.Sprintf("%s@%s", c.id, cfgTag(c, rc)), true)
 		r.Count("cells."+c.fam, 1)
 		r.Count(fmt.Sprintf("cells.o%d", rec.Opt), 1)
+
+		if c.fam == "retyped" {
+			r.Count("retyped.config."+cfgTag(c, rc), 1)
+			r.Count("retyped.variant."+strings.Split(c.group, ":")[1], 1)
+		}
 
 		if c.fam == "named" {
 			r.Count("named.config."+cfgTag(c, rc), 1)
@@ -643,7 +658,7 @@ func crossCheckCLI(r *vh.Report, table []*cell) {
 		n++
 
 		// the CLI's defaults: global cache on; the in-process runs of the classic families use it off, which is part of what is cross-checked
-		in := runSolo(c, runCfg{opt, c.fam == "named"}, &st)
+		in := runSolo(c, runCfg{opt, c.fam == "named" || c.fam == "retyped"}, &st)
 		file := filepath.Join(dir, fmt.Sprintf("cell%d.ego", n))
 		_ = os.WriteFile(file, []byte(in.program), 0o644)
 
